@@ -136,6 +136,9 @@ def _is_arr2(sx):
     return isinstance(sx, list) and len(sx) > 1 and sx[0] == 'L' and all(_is_arr1(e) or e == ['L'] for e in sx[1:])
 
 
+TREE_HEADS = ('ts', 'df', 'arr', 'o', 'L', 'T', 'D')
+
+
 def obj_candidates(sx):
     """smaller variants of a series / frame / array / method list; containers (L/T/D of objects) are descended into"""
     if isinstance(sx, str):
@@ -160,6 +163,18 @@ def obj_candidates(sx):
             for j in range(1, len(sx)):
                 yield sx[:j] + sx[j + 1:]
         return
+    if sx and sx[0] in ('ts', 'df', 'arr') and len(sx) == 2:
+        for sub in obj_candidates(sx[1]):
+            yield [sx[0], sub]
+        return
+    if sx and sx[0] == 'o':
+        return
+    if sx and sx[0] in ('L', 'T') and len(sx) > 2 and all(isinstance(e, list) and e and e[0] in TREE_HEADS for e in sx[1:]):
+        for i in range(1, len(sx)):
+            yield sx[:i] + sx[i + 1:]
+    if sx and sx[0] == 'D' and len(sx) > 2 and all(isinstance(e, list) and len(e) == 2 and isinstance(e[1], list) and e[1] and e[1][0] in TREE_HEADS for e in sx[1:]):
+        for i in range(1, len(sx)):
+            yield sx[:i] + sx[i + 1:]
     if sx and sx[0] in ('M', 'MT') and len(sx) > 2:
         for i in range(1, len(sx)):
             yield sx[:i] + sx[i + 1:]
